@@ -70,7 +70,8 @@ def run(prog, chk):
     chk.rule(C19.text_not_altered, prog, chk)  # "the same text": character content is carried verbatim
     chk.rule(C08.author_wins, prog, chk)  # the root's own attributes (id, width, viewBox ...) are kept
     chk.rule(C08.clip_failure_modes, prog, chk)  # "never makes the transform fail": a clip-path reference fails only for the reviewed reasons
-    chk.rule(C08.points_parity, prog, chk)  # "never makes the transform fail": a points list is read with every separator SVG allows
+    chk.rule(C08.points_parity, prog, chk)
+    chk.rule(C08.path_arity, prog, chk)  # "never makes the transform fail": every path command reads the numbers SVG gives it  # "never makes the transform fail": a points list is read with every separator SVG allows
     from props import C18, C10
     chk.rule(C18.template_source, prog, chk)  # "never makes the transform fail": an id'd element is registered before it is needed by <use> / clip-path
     chk.rule(C10.retry_progress, prog, chk)  # ... and a forward <use href> / clip-path is retried whatever resolved in between
